@@ -32,6 +32,7 @@ DEFAULT_CFG = {
     "pub_ctx": True,  # publishes may copy another context variable
     "items_conc": True,  # with-items tasks may have a concurrency limit
     "retry_expr": False,  # retry count / delay may be expressions over vars rc / rd
+    "dict_vals": False,  # the variable `z` holds a dict and publishes to it are dicts (the engine deep-merges them)
     "bad_vars": 0.0,  # probability of a workflow variable whose expression fails when the conductor initialises
 }
 
@@ -84,7 +85,9 @@ def wf_ir(draw, c=None):
                 kind = draw(st.integers(0, 5))
                 if kind == 4 and not c["pub_ctx"]:
                     kind = 0
-                if kind <= 2:
+                if c["dict_vals"] and var == "z":
+                    val = {"k%d" % (site[0] % 3): "p%d@%s" % (site[0], tname)}
+                elif kind <= 2:
                     val = "p%d@%s" % (site[0], tname)
                 elif kind == 3:
                     val = E(["res_key", "tok"], lp(draw))
@@ -115,6 +118,8 @@ def wf_ir(draw, c=None):
         tasks[nm] = t
 
     ir = {"vars": [[v, "init_" + v] for v in POOL], "tasks": tasks}
+    if c["dict_vals"]:
+        ir["vars"] = [[v, {"k0": "init_z"} if v == "z" else "init_" + v] for v in POOL]
 
     # connect most orphans so that definitions have depth, not just many parallel roots
     inb0 = lang.inbound(ir)
